@@ -3126,6 +3126,78 @@ fn kv_view_marginalize_cli() {
 }
 """
 
+CREATE_NATIVE_TEST = r"""
+// generated by /verif (mir2smt replay for the create runner): the built `sfs create` on inline VCFs
+use std::process::Command;
+
+const CHECK_COUNTS: bool = @COUNTS@;
+const CHECK_STRICT: bool = @STRICT@;
+const CHECK_PLOIDY: bool = @PLOIDY@;
+
+fn create(vcf: &str, extra: &[&str]) -> (Option<i32>, String, String) {
+    let dir = std::env::temp_dir().join(format!("kv_create_{}_{}", std::process::id(), vcf.len()));
+    std::fs::create_dir_all(&dir).unwrap();
+    let path = dir.join("in.vcf");
+    std::fs::write(&path, vcf).unwrap();
+    let mut args: Vec<String> = vec!["create".into()];
+    args.extend(extra.iter().map(|s| s.to_string()));
+    args.push(path.display().to_string());
+    let out = Command::new(env!("CARGO_BIN_EXE_sfs")).args(&args).env("SFS_ALLOW_STDIN", "1").stdin(std::process::Stdio::null()).output().expect("sfs runs");
+    let _ = std::fs::remove_dir_all(&dir);
+    (out.status.code(), String::from_utf8_lossy(&out.stdout).to_string(), String::from_utf8_lossy(&out.stderr).to_string())
+}
+
+fn vcf(records: &[(&str, usize, [&str; 3])]) -> String {
+    let mut s = String::from("##fileformat=VCFv4.3\n##contig=<ID=chr1>\n##contig=<ID=chr2>\n##FORMAT=<ID=GT,Number=1,Type=String,Description=\"Genotype\">\n#CHROM\tPOS\tID\tREF\tALT\tQUAL\tFILTER\tINFO\tFORMAT\ta\tb\tc\n");
+    for (chrom, pos, gts) in records {
+        s += &format!("{chrom}\t{pos}\t.\tA\tC\t.\t.\t.\tGT\t{}\t{}\t{}\n", gts[0], gts[1], gts[2]);
+    }
+    s
+}
+
+#[test]
+fn kv_create_runner() {
+    let complete = [("chr1", 3usize, ["0/0", "0/1", "1/1"]), ("chr1", 9, ["0/1", "0|0", "0/0"]), ("chr1", 27, ["./.", "0/1", "0/0"]), ("chr2", 8, ["1/1", "1|1", "1/1"]), ("chr2", 12, ["0/0", "1/2", "0/0"]), ("chr2", 19, ["0/1", "0/1", "0/1"])];
+    if CHECK_COUNTS {
+        // ALT totals of the complete records: 3, 1, (skipped), 6, (skipped), 3
+        let (code, out, err) = create(&vcf(&complete), &[]);
+        assert_eq!((code, out.as_str()), (Some(0), "#SHAPE=<7>\n0 1 0 2 0 0 1\n"), "sfs create on six records (two with an incomplete sample): {err}");
+        // the same records in two files add up
+        let (_, first, _) = create(&vcf(&complete[..3]), &[]);
+        let (_, second, _) = create(&vcf(&complete[3..]), &[]);
+        assert_eq!((first.as_str(), second.as_str()), ("#SHAPE=<7>\n0 1 0 1 0 0 0\n", "#SHAPE=<7>\n0 0 0 1 0 0 1\n"), "the two halves on their own");
+    }
+    if CHECK_STRICT {
+        let (code, out, err) = create(&vcf(&complete), &["--strict"]);
+        assert!(code == Some(1) && out.is_empty(), "a strict run over a record with a missing genotype must fail without a spectrum: status {code:?}, stdout {out:?}");
+        assert!(err.contains("chr1:27"), "the strict failure must name the first record that would be skipped (chr1:27): {err}");
+        // also when a later record is unreadable for another reason
+        let mut with_haploid = complete.to_vec();
+        with_haploid.push(("chr2", 30, ["0", "0/1", "0/0"]));
+        let (code, out, err) = create(&vcf(&with_haploid), &["--strict"]);
+        assert!(code == Some(1) && out.is_empty() && err.contains("chr1:27"), "strict run, later haploid record: status {code:?}, stdout {out:?}, stderr {err}");
+        let (code, out, _) = create(&vcf(&complete[..2]), &["--strict"]);
+        assert_eq!((code, out.as_str()), (Some(0), "#SHAPE=<7>\n0 1 0 1 0 0 0\n"), "a strict run over complete records equals the lenient one");
+    }
+    if CHECK_PLOIDY {
+        for (i, gts) in [["0", "0/1", "0/0"], ["0/0", "0/1", "0/0/1"], ["0/0", "1", "0/0"]].iter().enumerate() {
+            let mut recs = complete[..2].to_vec();
+            recs.push(("chr2", 40 + i, *gts));
+            recs.push(("chr2", 50, ["0/0", "0/0", "0/1"]));
+            let (code, out, err) = create(&vcf(&recs), &[]);
+            assert!(code == Some(1) && out.is_empty(), "a non-diploid genotype ({gts:?}) must fail the run without a spectrum: status {code:?}, stdout {out:?}");
+            assert!(err.contains(&format!("chr2:{}", 40 + i)), "the error must name contig and position chr2:{}: {err}", 40 + i);
+        }
+    }
+}
+"""
+
+
+def _create_native(counts, strict, ploidy):
+    code = CREATE_NATIVE_TEST.replace("@COUNTS@", str(counts).lower()).replace("@STRICT@", str(strict).lower()).replace("@PLOIDY@", str(ploidy).lower())
+    return dict(crate="sfs-cli", file="cli/tests/kv_create_runner.rs", name="kv_create_runner", code=code, integration=True)
+
+
 def _native_by_property():
     """a task that serves several properties is replayed with the clause of the property being checked:
     a failing replay must be a violation of THAT property's statement"""
@@ -3135,13 +3207,22 @@ def _native_by_property():
         ("C17", "header_write_padding"): dict(crate="sfs-core", file="core/src/array/npy/header.rs", name="kv_header_write_never_panics", code=HEADER_PANIC_NATIVE_TEST),
         ("C07", "write_dispatch_wiring"): dict(crate="sfs-core", file="core/src/spectrum/io/write.rs", name="kv_written_spectrum_is_read_back", code=WRITE_ROUNDTRIP_NATIVE_TEST),
         ("C13", "write_dispatch_wiring"): dict(crate="sfs-core", file="core/src/spectrum/io/write.rs", name="kv_written_spectrum_is_read_back", code=WRITE_ROUNDTRIP_NATIVE_TEST),
+        ("C10", "runner_step"): _create_native(True, True, True),
+        ("C01", "runner_step"): _create_native(True, False, False),
+        ("C11", "runner_step"): _create_native(True, False, False),
+        ("C08", "runner_step"): _create_native(False, False, True),
         ("C04", "view_pipeline"): dict(crate="sfs-cli", file="cli/tests/kv_view_marginalize_cli.rs", name="kv_view_marginalize_cli", code=VIEW_MARGINALIZE_NATIVE_TEST, integration=True),
         ("C17", "view_pipeline"): dict(crate="sfs-cli", file="cli/tests/kv_view_never_panics.rs", name="kv_view_never_panics", code=VIEW_PANIC_NATIVE_TEST, integration=True),
     }
 
 
 def run_task(name, scratch, tier, seed, logdir, prop=None):
-    res = TASKS[name](scratch, tier, seed, logdir)
+    try:
+        res = TASKS[name](scratch, tier, seed, logdir)
+    except Exception as e:  # the translator gave up on the changed code: never a pass; a native test may still decide
+        import traceback
+        res = [dict(name=name, status="inconclusive", detail="".join(traceback.format_exception_only(type(e), e)).strip(), trace=traceback.format_exc()[-1500:],
+                    functions=[], queries=0, nonvacuous=False, time_s=0)]
     # an obligation that did not come out as "holds" (wrong form, unrecognised form, or the translator
     # could not even find the function) and has a native test: the real code decides (see check)
     reg = _native_registry()
